@@ -112,10 +112,38 @@ def decorated():
     return sorted(out)
 
 
+SPAWNERS = ("ensure_future", "create_task", "wait", "gather", "shield", "as_completed", "run_coroutine_threadsafe", "TaskGroup")
+
+
+def async_spawn_sites(dec):
+    """(class, function, callee) for every call of a task-creating / non-cancelling asyncio primitive inside the classes
+    that carry an async @timeout_wrapper method (the whole class: helpers run inside the decorated operations).
+    `asyncio.wait_for` is the one primitive that cancels and awaits what it started: not listed."""
+    classes = {c for c, _, a in dec if a}
+    out = []
+    for p in sorted((REPO / "scrapli").rglob("*.py")):
+        tree = ast.parse(p.read_text())
+        for c in ast.walk(tree):
+            if not (isinstance(c, ast.ClassDef) and c.name in classes):
+                continue
+            for f in c.body:
+                if not isinstance(f, (ast.FunctionDef, ast.AsyncFunctionDef)):
+                    continue
+                for n in ast.walk(f):
+                    if isinstance(n, ast.Call):
+                        fn = n.func
+                        nm = fn.attr if isinstance(fn, ast.Attribute) else fn.id if isinstance(fn, ast.Name) else None
+                        base = fn.value if isinstance(fn, ast.Attribute) else None
+                        if nm in SPAWNERS and (base is None or (isinstance(base, ast.Name) and base.id in ("asyncio", "loop"))
+                                               or (isinstance(base, ast.Call))):
+                            out.append((c.name, f.name, nm))
+    return sorted(out)
+
+
 def tables():
     tree = _parse(DEC)
     return {"messageMap": message_map(tree), "defaultMessage": default_message(tree), "threadClassNames": selection(tree),
-            "noTerminateDefault": no_terminate_default(), "decorated": decorated()}
+            "noTerminateDefault": no_terminate_default(), "decorated": (dec := decorated()), "asyncSpawnSites": async_spawn_sites(dec)}
 
 
 def generate():
@@ -133,5 +161,9 @@ def generate():
         rows = [(c, m) for c, m, a in t["decorated"] if a == flag]
         b += f"/-- (class, method) pairs carrying @timeout_wrapper, {'async def' if flag else 'def'} -/\n"
         b += f"def {nm} : List (String × String) := [\n" + ",\n".join(f"  ({_lstr(c)}, {_lstr(m)})" for c, m in rows) + "]\n"
+    b += ("/-- (class, function, asyncio primitive): places inside the async channel / transports where a task is created or\n"
+          "    awaited without being cancelled (ensure_future, create_task, asyncio.wait, gather, shield …) -/\n")
+    b += "def asyncSpawnSites : List (String × String × String) := [" + ", ".join(
+        f"({_lstr(c)}, {_lstr(f)}, {_lstr(n)})" for c, f, n in t["asyncSpawnSites"]) + "]\n"
     b += "end Scrapli.Gen.Timeout\n"
     return [("ScrapliModel/Gen/TimeoutConsts.lean", b)]
